@@ -44,6 +44,11 @@ def run_behaviour(bid, beh, seed, observe=None, expose=None):
         f = id_style_map(style)
         beh = restyle(beh, f)
         g.idf = f
+    from .render import ROID_STYLES, restyle_roid
+    new_roid = g.rng("roidstyle").choice(ROID_STYLES)
+    if new_roid:
+        beh = restyle_roid(beh, new_roid)
+        g.roid = lambda x: new_roid if x == "RO1" else x
     table = {}
     objs = {}
     events = []
